@@ -238,6 +238,19 @@ class Exporter:
         enabled = bool(cb.get("circuit_enabled", cb.get("circuit_enable_disable", False)))
         return f"(KPassive {b(enabled)} {self.entity_cond(cb)})", (1, 2, 0, 0)
 
+    def structured(self, drop_poles=True):
+        """list of (kind text, ir, ig, [or], [og]) with integer net ids, for matching two builds"""
+        out = []
+        for e in entities_of(self.j):
+            if drop_poles and e["name"] in POLES:
+                continue
+            k, (ir, ig, orr, og) = self.kind(e)
+            en = e["entity_number"]
+            g = lambda c: self.net.get((en, c), 0) if c else 0
+            gl = lambda c: [self.net[(en, c)]] if (c and (en, c) in self.net) else []
+            out.append((k, g(ir), g(ig), gl(orr), gl(og)))
+        return out
+
     def export(self, name="the_bp"):
         ents = []
         for i, e in enumerate(entities_of(self.j)):
